@@ -1,12 +1,14 @@
 """C03 - typed values survive the client -> bus -> server -> client round trip."""
 import logging, math, queue, random, threading, time
-from vlib.obs import S, Err, guarded, gz, gzlist, glist
+from vlib.obs import S, Err, guarded, gz, gzlist, glist, gbool
+from props import c01 as _c01     # recorder of the raw-stream calls of io.BufferedWriter (write schedule of the model)
 from props.c04 import (INT_TYPES, BOOLEAN, REAL32, REAL64, REALS, VISIBLE, OCTET, UNICODE, DOMAIN,
                        bits_to_float, float_to_bits, rng_of, boundary_values, REAL_BITS)
 
 PROP = "C03"
 MODEL_VO = ["theories/Model/SdoLink.vo"]
-COQ_IMPORTS = "From CV Require Import Model.Codec Model.SdoLink."
+COQ_IMPORTS = ("From CV Require Import Model.Codec Model.SdoServer Model.SdoLink.\nImport ListNotations.\nOpen Scope Z_scope.\n"
+               "Definition the_dict : ndict := %s.")      # completed at the end of the module
 COQ_RUN = "run_sdolink"
 COQ_CASE_TYPE = "sdolink_case"
 ANCHORS = [("canopen.variable", "Variable.raw"), ("canopen.sdo.base", "SdoVariable"), ("canopen.sdo.base", "SdoBase.__getitem__"),
@@ -59,12 +61,22 @@ def py_value(dt, v):
 
 
 def canon(dt, r):
+    """observation form (printable as a Coq val): int, [bits] for REAL, S(text), bytes"""
     if isinstance(r, float):
-        return {"bits": float_to_bits(r, *REALS[dt])} if not math.isnan(r) else {"nan": True}
-    if isinstance(r, str): return {"str": [ord(c) for c in r]}
-    if isinstance(r, (bytes, bytearray)): return {"bytes": list(r)}
+        return [float_to_bits(r, *REALS[dt])] if not math.isnan(r) else [S("nan")]
+    if isinstance(r, str): return S(r)
+    if isinstance(r, (bytes, bytearray)): return bytes(r)
     if isinstance(r, bool): return int(r)
     return r
+
+
+def obs_form(dt, v):
+    """the observation form of a case value (same demand as before, other spelling)"""
+    if dt in REALS: return [v["bits"]]
+    if dt in (VISIBLE, UNICODE): return S("".join(chr(x) for x in v["str"]))
+    if dt in (OCTET, DOMAIN): return bytes(v["bytes"])
+    if dt == BOOLEAN: return 1 if v else 0
+    return v
 
 
 def cia301_bytes(dt, v):
@@ -165,16 +177,30 @@ def accessor(node_sdo, access, dt):
     raise ValueError(access)
 
 
+_SCHED = {}
+
+
+def _ckey(c):
+    import json
+    return json.dumps(c, sort_keys=True)
+
+
 def impl(c):
+    _c01.install()
     if c["kind"] == "rt":
         def run():
             bus, pairs = setup(c["mode"], c.get("seed", 0), [5])
             try:
                 loc, rem = pairs[0]
                 out = []
+                scheds = []
                 for access, dt, v in c["items"]:
                     def one():
-                        accessor(rem.sdo, access, dt).raw = py_value(dt, v)
+                        del _c01.REC[:]
+                        try:
+                            accessor(rem.sdo, access, dt).raw = py_value(dt, v)
+                        finally:
+                            scheds.append([r[1] for r in _c01.REC if r[0] == "W"])
                         back = canon(dt, accessor(rem.sdo, access, dt).raw)
                         local = canon(dt, accessor(loc.sdo, access, dt).raw)
                         idx, sub = (0x3000, member_sub(dt)) if access in ("member", "record") else (0x2000 + dt, 0)
@@ -183,6 +209,7 @@ def impl(c):
                     out.append(guarded(one))
                 if c["mode"] == "inline" and c.get("trace"):
                     out.append([[f[0], f[1]] for f in bus.frames])
+                _SCHED[_ckey(c)] = scheds
                 return out
             finally:
                 bus.close()
@@ -229,7 +256,7 @@ def oracle(c, o):
             if isinstance(r, Err) or not isinstance(r, list):
                 return ("roundtrip_raised", f"{where}: {r!r}")
             back, local, stored = r
-            exp = 1 if (dt == BOOLEAN and v) else v
+            exp = obs_form(dt, v)
             if dt in REALS and math.isnan(bits_to_float(v["bits"], *REALS[dt])):
                 exp = back = local = None
             if back != exp:
@@ -247,8 +274,52 @@ def oracle(c, o):
     return None
 
 
+# ---- Gallina printing (inline round-trip cases) ----
+def gname(t):
+    return gzlist([ord(ch) for ch in t])
+
+
+def gvar(dt):
+    return "(mkVar (Some %s) [114; 119] None None)" % gz(dt)      # access_type "rw", no default, no value
+
+
+def gdict():
+    ents = []
+    for dt in ALLT:
+        ents.append("(%d, NVar {| nv_name := %s; nv_index := %d; nv_sub := 0; nv_var := %s |})"
+                    % (0x2000 + dt, gname(f"var{dt}"), 0x2000 + dt, gvar(dt)))
+    ms = ["{| nv_name := %s; nv_index := 12288; nv_sub := 0; nv_var := %s |}" % (gname("n"), gvar(5))]
+    for i, dt in enumerate(ALLT):
+        ms.append("{| nv_name := %s; nv_index := 12288; nv_sub := %d; nv_var := %s |}" % (gname(f"m{dt}"), i + 1, gvar(dt)))
+    ents.append("(12288, NRec %s %s)" % (gname("Rec"), glist(ms)))
+    return glist(ents)
+
+
+def gaccess(access, dt):
+    if access == "index": return "(AIndex %d)" % (0x2000 + dt)
+    if access == "name": return "(AName %s)" % gname(f"var{dt}")
+    if access == "member": return "(AName %s)" % gname(f"Rec.m{dt}")
+    if access == "record": return "(ARec 12288 %d)" % member_sub(dt)
+    raise ValueError(access)
+
+
+def gpyval(dt, v):
+    if dt in REALS: return "(PFloat %s)" % gz(v["bits"])
+    if dt in (VISIBLE, UNICODE): return "(PStr %s)" % gzlist(v["str"])
+    if dt in (OCTET, DOMAIN): return "(PBytes %s)" % gzlist(v["bytes"])
+    if dt == BOOLEAN: return "(PInt %d)" % (1 if v else 0)
+    return "(PInt %s)" % gz(v)
+
+
 def coq_case(c):
-    raise NotImplementedError
+    assert c["kind"] == "rt" and c["mode"] == "inline"
+    if _ckey(c) not in _SCHED:
+        impl(c)
+    scheds = _SCHED[_ckey(c)]
+    items = ["{| li_acc := %s; li_val := %s; li_sched := %s |}" % (gaccess(a, dt), gpyval(dt, v), gzlist(sc))
+             for (a, dt, v), sc in zip(c["items"], scheds)]
+    return ("{| lc_dict := the_dict; lc_node := 5; lc_trace := %s; lc_items := %s |}"
+            % (gbool(bool(c.get("trace"))), glist(items)))
 
 
 def nontrivial(c):
@@ -289,7 +360,8 @@ def gen_cases(rng, tier):
                 for dt in ALLT:
                     for _ in range(2 if mode == "inline" else 1):
                         items.append([access, dt, rand_value(rng, dt)])
-                cases.append(dict(kind="rt", mode=mode, seed=rng.randrange(10 ** 6), items=items, model=False))
+                cases.append(dict(kind="rt", mode=mode, seed=rng.randrange(10 ** 6), items=items,
+                                  model=(mode == "inline"), trace=(mode == "inline")))
     # boundary sweep, inline
     for dt in NUMERIC:
         s, w = INT_TYPES[dt]
@@ -297,7 +369,7 @@ def gen_cases(rng, tier):
         vals = [v for v in boundary_values(s, w) if lo <= v <= hi]
         if tier == "quick":
             vals = rng.sample(vals, min(len(vals), 12)) + [lo, hi]
-        cases.append(dict(kind="rt", mode="inline", items=[["index", dt, v] for v in vals], model=False))
+        cases.append(dict(kind="rt", mode="inline", items=[["index", dt, v] for v in vals], model=True, trace=True))
     for dt in (VISIBLE, OCTET, UNICODE, DOMAIN):
         lens = range(0, 201) if tier != "quick" else [0, 1, 3, 4, 5, 6, 7, 8, 13, 14, 15, 21, 22, 199, 200]
         items = []
@@ -306,7 +378,8 @@ def gen_cases(rng, tier):
             elif dt == UNICODE: v = {"str": [rng.randrange(1, 0xD800) for _ in range(n // 2)]}
             else: v = {"bytes": [rng.randrange(256) for _ in range(n)]}
             items.append(["index", dt, v])
-        cases.append(dict(kind="rt", mode="inline", items=items, model=False))
+        for k in range(0, len(items), 40):
+            cases.append(dict(kind="rt", mode="inline", items=items[k:k + 40], model=True, trace=True))
     if tier == "thorough":
         for dt in (0x02, 0x05, 0x03, 0x06):
             lo, hi = rng_of(*INT_TYPES[dt])
@@ -326,3 +399,6 @@ def shrink(c):
         items = c["items"]
         for i in range(len(items)):
             yield dict(c, items=[items[i]])
+
+
+COQ_IMPORTS = COQ_IMPORTS % gdict()
